@@ -6,3 +6,4 @@
 
 pub mod rng;
 pub mod proto;
+pub mod shell;
